@@ -91,9 +91,9 @@ def run_case(case, ctx):
 				gzs = []
 				for i, q in enumerate(order):
 					stem, ext, gz = plan['names'][i % len(plan['names'])]
-					nm = clean_name(stem, ext + ('.gz' if gz and ext else ''), chan == 'list')
+					nm = clean_name(stem, ext + ('.gz' if gz else ''), chan == 'list')
 					rel.append(os.path.join(f'sub{i}', 'deeper' if i % 2 else '', nm))
-					gzs.append(gz)
+					gzs.append((plan.get('gz_members', 1) if i % 2 == 0 else True) if gz else False)
 				paths = H.write_genomes(os.path.join(pd, 'base'), [W.query_contigs[q] for q in order], rel, gz=gzs)
 				labels = [H.expected_label(p) for p in rel]
 				if chan == 'files':
@@ -186,6 +186,7 @@ def gen_case(draw, tier):
 			'progress': draw(st.booleans()),
 			'fmt': draw(st.sampled_from(['csv', 'json', 'archive', 'csv'])),
 			'int_ids': draw(st.booleans()),
+			'gz_members': draw(st.sampled_from([1, 2, 3])),
 			'chunksize': draw(st.sampled_from([1000, None, 1, 2, 'n+1'])),
 		})
 	return {'kind': 'plans', 'world': w, 'plans': plans}
